@@ -36,6 +36,12 @@ def run(ctx, chk):
     a3(fb, chk)
     a4(fb, chk)
     n = lambda r: len([i for i in chk.instances if i[0] == r])
+    # reply/request headers and bodies are accepted through validators whose exactness is decided by C20/X2
+    from vlint.report import Renamed as _Renamed
+    from spec import validity as _validity
+    from . import c20 as _c20
+    chk.rule("A5", "header and body validators applied by the frontend-side parsers accept exactly the protocol-valid encodings (C20/X2)")
+    _c20.run_on(fb, _Renamed(chk, {"X2": "A5", "X1": "A5"}), _validity.VALID)
     chk.floor("A1", n("A1"), 7)
     chk.floor("A3", n("A3"), 10)
 
